@@ -524,7 +524,7 @@ def _inline_returned_helpers(model: Model, fi: FuncInfo, body: List[ast.stmt]) -
                 # x = self._h(..); if x is not None: return x   with _h a private helper answering None for "not mine"
                 pseudo = ast.copy_location(ast.Return(value=st.value), st)
                 rep = _tail_helper_body(model, fi, [pseudo], all_names)
-                rep2 = _optional_conv(rep, st.targets[0].id, st) if rep is not None else None
+                rep2 = _optional_conv(rep, st.targets[0].id, st, nxt_.body[0]) if rep is not None else None
                 if rep2 is not None:
                     out.extend(rep2)
                     changed = True
@@ -694,11 +694,13 @@ def _is_none(e) -> bool:
     return e is None or (isinstance(e, ast.Constant) and e.value is None)
 
 
-def _is_first_non_none_pair(st, nxt) -> bool:
+def _is_first_non_none_pair(st, nxt, in_loop: bool = False) -> bool:
     if not (isinstance(st, ast.Assign) and len(st.targets) == 1 and isinstance(st.targets[0], ast.Name) and isinstance(st.value, ast.Call)):
         return False
     x = st.targets[0].id
-    if not (isinstance(nxt, ast.If) and not nxt.orelse and len(nxt.body) == 1 and isinstance(nxt.body[0], ast.Return) and isinstance(nxt.body[0].value, ast.Name) and nxt.body[0].value.id == x):
+    if not (isinstance(nxt, ast.If) and not nxt.orelse and len(nxt.body) == 1 and isinstance(nxt.body[0], ast.Return) and nxt.body[0].value is not None):
+        return False
+    if in_loop and not (isinstance(nxt.body[0].value, ast.Name) and nxt.body[0].value.id == x):
         return False
     t = nxt.test
     return isinstance(t, ast.Compare) and len(t.ops) == 1 and isinstance(t.ops[0], ast.IsNot) and isinstance(t.left, ast.Name) and t.left.id == x and _is_none(t.comparators[0])
@@ -813,7 +815,7 @@ def _assign_conv(stmts: List[ast.stmt], target: ast.expr, at: ast.stmt) -> Optio
     return r
 
 
-def _optional_conv(stmts: List[ast.stmt], x: str, at: ast.stmt) -> Optional[List[ast.stmt]]:
+def _optional_conv(stmts: List[ast.stmt], x: str, at: ast.stmt, ret: Optional[ast.Return] = None) -> Optional[List[ast.stmt]]:
     """the statements of a helper (parameters already renamed) that answers None for "not mine", placed where
     `x = helper(..); if x is not None: return x` stood: `return None` falls out to what follows, `return E` becomes
     `x = E; if x is not None: return x` (just `return E` for a constructor call, which is never None)."""
@@ -829,14 +831,19 @@ def _optional_conv(stmts: List[ast.stmt], x: str, at: ast.stmt) -> Optional[List
                 if _is_none(st.value):
                     return out
                 e = st.value
-                never_none = isinstance(e, ast.Call) and isinstance(e.func, ast.Attribute) and isinstance(e.func.value, ast.Name) and e.func.value.id == "ast"
-                if never_none:
+                never_none = (isinstance(e, ast.Call) and isinstance(e.func, ast.Attribute) and isinstance(e.func.value, ast.Name) and e.func.value.id == "ast") or (isinstance(e, ast.Constant) and e.value is not None)
+                plain = ret is None or (isinstance(ret.value, ast.Name) and ret.value.id == x)
+                the_ret = ast.Return(value=ast.Name(id=x, ctx=ast.Load())) if plain else clone_ast(ret)
+                if never_none and plain:
                     out.append(_fresh(ast.copy_location(ast.Return(value=e), at)))
                 else:
                     a_ = _fresh(ast.copy_location(ast.Assign(targets=[ast.Name(id=x, ctx=ast.Store())], value=e, type_comment=None), at))
-                    t_ = ast.Compare(left=ast.Name(id=x, ctx=ast.Load()), ops=[ast.IsNot()], comparators=[ast.Constant(value=None)])
-                    i_ = _fresh(ast.copy_location(ast.If(test=t_, body=[ast.Return(value=ast.Name(id=x, ctx=ast.Load()))], orelse=[]), at))
-                    out += [a_, i_]
+                    if never_none:
+                        out += [a_, _fresh(ast.copy_location(the_ret, at))]
+                    else:
+                        t_ = ast.Compare(left=ast.Name(id=x, ctx=ast.Load()), ops=[ast.IsNot()], comparators=[ast.Constant(value=None)])
+                        i_ = _fresh(ast.copy_location(ast.If(test=t_, body=[the_ret], orelse=[]), at))
+                        out += [a_, i_]
                 return out
             if not has_ret(st):
                 out.append(st)
@@ -1315,7 +1322,7 @@ def _names_literal(model: Model, fi: FuncInfo, it: ast.AST) -> Optional[List[ast
 
 def _match_first_non_none_loop(model: Model, fi: FuncInfo, s: ast.stmt) -> Optional[List[ast.stmt]]:
     """for h in TABLE: x = getattr(self, h)(args) [or h(args)]; if x is not None: return x   -> one such pair per entry"""
-    if not (isinstance(s, ast.For) and not s.orelse and isinstance(s.target, ast.Name) and len(s.body) == 2 and _is_first_non_none_pair(s.body[0], s.body[1])):
+    if not (isinstance(s, ast.For) and not s.orelse and isinstance(s.target, ast.Name) and len(s.body) == 2 and _is_first_non_none_pair(s.body[0], s.body[1], True)):
         return None
     hv = s.target.id
     x = s.body[0].targets[0].id  # type: ignore
